@@ -40,3 +40,13 @@ claimed["C14"] = dict(engine="engine-I", category="model_checking",
   text="every gene layout within the bounds (coding length 6/9, codon_start 1-3, offsets 1-3, both strands, unsplit or split at every base with an intron of -2..3 bases incl. slippage-style overlaps, both GenBank spellings of reverse joins, a second gene downstream, ORF1a/ORF1ab-style pairs, nested in-frame pairs; GFF rows grouped or coordinate-sorted) rendered in both formats and run through `variants` and `sam variants` on every single substitution, deletions and an insertion; per-sequence record multisets must be equal; a slice is bound to the real binary",
   note="trusted: the two renderers in harness/gen_anno.go express the same gene (GFF3 phases per specification); genomes are solved so each gene is sense codons + stop; both formats rejecting a layout is not a difference",
   design_ref="DESIGN.md 3 (C14)")
+claimed["C06"] = dict(engine="engine-I", category="model_checking",
+  technique="bounded-exhaustive input enumeration on the real entry points vs. sort-based reference model",
+  text="every target file of 1..4 (thorough 5) records over a 9-sequence menu realising every tie pattern, two queries in both orders, x 3 measures x {plain, -n 1..3, -d at 3-4 thresholds, both, --table} x threads x wrapped/unwrapped targets, plus 13-30 tied candidates; the returned neighbours, their order, the printed distances and the SNP list are compared with (distance asc, completeness desc, file order asc) computed from the reference distance definitions",
+  note="trusted: ref_dist.go (distance + completeness definitions); undefined-distance targets judged only as 'never before/instead of a defined one'",
+  design_ref="DESIGN.md 3 (C06)")
+claimed["C07"] = dict(engine="engine-I", category="model_checking",
+  technique="exhaustive per-column table in context on the real entry point vs. reference distance definitions",
+  text="for each measure every ordered pair of column pairs over the 17-symbol alphabet (83 521 sequence pairs) on a backbone containing all bases, a transition and a transversion, in upper/lower/mixed case, read back from `closest -n 289 --table`; all one- and two-column pairs without backbone for raw/snp; numeric comparison (|delta|<=1.5e-9) with the definitions (tn93: Tamura-Nei eq. 7, target frequencies), only where the definition is defined",
+  note="trusted: ref_dist.go; float64 evaluation of eq. 7 (the tolerance is 6 orders of magnitude above rounding error)",
+  design_ref="DESIGN.md 3 (C07)")
